@@ -13,6 +13,7 @@ Decided:
   C15.cap     every seek table built by the encoder (constructor placeholder included) is capped at MAX_POINTS
   (C15.guard also: every place that fills an audio::Frame has established a non-empty block; C15.len also: the declared
    total is converted to channel-independent samples by exact division)
+  C15.atomic  argument-shape errors of the buffering writers (channel count / length mismatch) are raised before anything is appended
 Not decided: that every accepted configuration produces a working writer for every input (see C01).
 """
 from rules.common import *
@@ -424,7 +425,7 @@ def run(ctx, rep):
         rep.bad("C15.guard", "anchor:best_partitions", "", "not found")
     else:
         b = bp[0]
-        rn = [t for _, t in b.calls() if re.search(r"RangeInclusive::<Idx>::new$", callee_name(t))]
+        lim, _how = inclusive_range_limit(b)
         good = False
         cap = None
         for cb in [b] + F.closures_of(b):
@@ -432,8 +433,8 @@ def run(ctx, rep):
                 m = re.search(r"arrayvec::ArrayVec<.*, (\d+)>", t["dty"]) if re.search(r"Iterator::collect$", callee_name(t)) else None
                 if m:
                     cap = max(cap or 0, int(m.group(1)))
-        if rn and cap:
-            sl = backward_slice(b, rn[0]["a"][1])
+        if lim is not None and cap:
+            sl = backward_slice(b, lim)
             mins = [c for c in sl["calls"] if re.search(r"Ord::min$", callee_name(c))]
             logs = [c for c in sl["calls"] if re.search(r"::ilog2$", callee_name(c)) and op_int(c["a"][0]) is not None and op_int(c["a"][0]) <= cap]
             smallc = [c for c in sl["consts"] if isinstance(c, int) and 0 < c and (1 << c) <= cap]
